@@ -690,6 +690,12 @@ class Schema:
             n = z3.If(n <= m, n, m)          # zip truncates to the shortest (that is exactly what C11 must exclude)
         return SSeq(z3.simplify(n), lambda k: tuple(s.get(k) for s in seqs), "list", "zip")
 
+    def all_symbolic(self, ip, S, node=None):
+        h = getattr(ip.reg, "all_hook", None)
+        if h is None:
+            raise Unsupported("all() over a symbolic-length sequence")
+        return h(ip, S, node)
+
     def symbolic_dict_comprehension(self, ip, e, fr, S):
         h = getattr(ip.reg, "dict_comprehension_hook", None)
         if h is None:
